@@ -19,7 +19,7 @@ ASSUMPTIONS = [
     "fixed centres compared with 1e-9 x die size (the code re-centres by (c-h)+h: a 1-ulp drift is not a move); containment with 1e-12 relative slack",
     "trial costs are recomputed by the harness with the repository's own total_intersection_area and wire_length",
 ]
-CASES = {"quick": 1600, "thorough": 40000}
+CASES = {"quick": 1600, "thorough": 250000}
 MIN_CASES = {"quick": 150, "thorough": 4000}
 REQUIRED_CLASSES = ["layout", "algorithm"]
 REQUIRED_COUNTERS = ["layouts_judged", "determinism_checked", "fixed_modules_checked", "centres_checked", "algorithm_runs_judged", "trials_recorded", "selection_checked", "algorithm_runs_after_earlier_queries"]
